@@ -804,6 +804,20 @@ def _judge_sr(c, tol=1e-6, zero=1e-3):
     if not same(got["dense2"], got["dense"]):
         return _viol("sr:repeat-call-differs", "measuring the same dense matrix object twice gives two different radii (%s, layout %s)"
                      % (c["family"], layout), c, got["dense"], got)
+    # the SAME sparse object measured, edited in place (W.data *= 3, as users rescale or prune weights), measured again: the second
+    # value is the radius of the matrix it holds NOW (3 x the first), not a remembered one
+    if n_ >= 3 and not nilpotent and abs(got["dense"]) >= zero:
+        for st in ("csr", "csc"):
+            try:
+                arg = sp.csr_matrix(W) if st == "csr" else sp.csc_matrix(W)
+                r0 = float(np.real(O.spectral_radius(arg)))
+                arg.data *= 3.0
+                r1 = float(np.real(O.spectral_radius(arg)))
+            except Exception:  # noqa: BLE001 -- ARPACK failures are judged above
+                continue
+            if same(r0, got["dense"]) and not same(r1, 3.0 * got["dense"]):
+                return _viol("sr:stale-after-in-place-edit", "spectral_radius of a %s matrix object measured, rescaled in place by 3 and measured again: "
+                             "got %r then %r, expected %r then %r" % (st, r0, r1, got["dense"], 3.0 * got["dense"]), c, 3.0 * got["dense"], r1)
     lr = float(Fraction(c["lr"]))
     M = lr * A + (1 - lr) * np.eye(len(A))
     eref = float(np.max(np.abs(np.linalg.eigvals(M))))
